@@ -44,7 +44,8 @@ var detTypes = map[string]string{
 	"f": `"123e4567-e89b-12d3-a456-426614174000" // {type: "uuid", minLength: 2, maxLength: 256, regex: "^1"}`,
 	"i": "{\n  \"name\": \"abc\" // {optional: true, minItems: 1, min: 2, maxItems: 5}\n}",
 	"j": "{ // {allOf: \"@i\"}\n  \"jk\": 1\n}",
-	"p": "{\n  \"p\": 1 // {or: [{type: \"@n6\", nullable: true}, {type: \"string\"}]}\n}",
+	"k": "{ // {allOf: [\"@c\", \"@p\"]}\n  \"kk\": 1\n}",
+	"p": "{\n  \"pp\": 1 // {or: [{type: \"@n6\", nullable: true}, {type: \"string\"}]}\n}",
 }
 
 func detRoot(root string, types []string) string {
@@ -417,10 +418,20 @@ func runC09(c *core.Ctx) error {
 				if fmt.Sprint(g[i].cs.Order) != fmt.Sprint(g[0].cs.Order) {
 					scope = "across-registration-orders"
 				}
+				class := detDiffClass(g[0].full, g[i].full, g[i].cs)
 				if g[i].cs.Reuse != g[0].cs.Reuse {
 					scope = "across-reuse-of-objects"
+					// an heir of two types of which the first is registered and the second is not: the failed
+					// compilation has already copied the first parent's properties into the heir object
+					has := map[string]bool{}
+					for _, t := range g[i].cs.Order {
+						has[t] = true
+					}
+					if has["k"] && has["c"] && !has["p"] {
+						class = "heir-partly-extended-by-a-failed-compilation"
+					}
 				}
-				c.Report(map[string]any{"cases": []detCase{g[0].cs, g[i].cs}}, []core.Finding{{Class: "nondeterministic:" + scope + ":" + detDiffClass(g[0].full, g[i].full, g[i].cs),
+				c.Report(map[string]any{"cases": []detCase{g[0].cs, g[i].cs}}, []core.Finding{{Class: "nondeterministic:" + scope + ":" + class,
 					What: detDiffWhat(g[0].full, g[i].full, g[i].cs)}})
 				break
 			}
